@@ -2,6 +2,8 @@ import Proofs.C01Mux
 import Proofs.C01Monitor
 import Proofs.C01Rx
 import Proofs.C01Own
+import Proofs.C01Refine
+import Proofs.C01Pool
 /-!
 # C01 — every response reaches the request that caused it, and only that one (property theorems)
 
@@ -420,6 +422,104 @@ example : ∃ m, MuxOwn.mrun .code (fun _ => MuxOwn.init 128)
      (1, .writeCancelled 2), (1, .release 2), (1, .relDone 2), (2, .reserve 3 1 .user), (2, .register 3), (2, .write 3),
      (2, .writeReturned 3), (1, .writeReturned 1), (1, .connDone 1), (2, .answer 1 0 3), (2, .deliver 1)] = some m ∧
     (m 1).pc 1 = .done (.connErr .plain) ∧ (m 1).pc 2 = .done .ctxErr ∧ (m 2).pc 3 = .done (.resp ⟨1, 0, 3⟩) := by
+  refine ⟨_, rfl, ?_, ?_, ?_⟩ <;> decide
+
+/-! ## The two machines are one: `Model/MuxOwn.lean` REFINES `Model/Mux.lean` (round 8, `Proofs/C01Refine.lean`)
+
+Mux's `acquire` (GetStream + addCall) is MuxOwn's `register`, `wrote` is `write`; `reserve`, `writeReturned`, `release`,
+`relDone` are stutter steps; a write failure after the bytes were handed over is Mux's `close` + `connDone`. Mux's
+`owner s` is "the call registered under `s` whose id has not been put up for release". -/
+
+/-- REFINEMENT: every run of the machine with the sender's steps, the connection's own requests, the early exits and the
+    two-step releaseStream (code configuration) is matched, action by action (`MuxOwn.trAll`), by a run of the abstract
+    multiplexing machine that ends in a related state and shows the same observable events `req` / `resp` / `got` /
+    `stray` / `event` -/
+theorem C01_own_refines_mux (cap : Nat) (as : List MuxOwn.Act) (st : MuxOwn.St)
+    (h : MuxOwn.run .code (MuxOwn.init cap) as = some st) :
+    ∃ m, Mux.run (Mux.init cap) (MuxOwn.trAll (MuxOwn.init cap) as) = some m ∧ MuxOwn.R st m ∧
+      Mux.trace (Mux.init cap) (MuxOwn.trAll (MuxOwn.init cap) as) = MuxOwn.otrace .code (MuxOwn.init cap) as :=
+  MuxOwn.sim_run as _ st _ (MuxOwn.inv_init cap) (MuxOwn.R_init cap) h
+
+/-- … hence the observation monitor that judges real Session runs accepts the observable projection of every run of
+    the finer machine too (soundness of the monitor, transferred) -/
+theorem C01_own_monitor_sound (cap : Nat) (as : List MuxOwn.Act) (st : MuxOwn.St)
+    (h : MuxOwn.run .code (MuxOwn.init cap) as = some st) :
+    (Mux.Mon.run (Mux.Mon.init cap) (MuxOwn.otrace .code (MuxOwn.init cap) as)).bad = none := by
+  obtain ⟨m, hm, _, ht⟩ := C01_own_refines_mux cap as st h
+  rw [← ht]
+  exact C01_monitor_sound cap _ m hm
+
+/-- … and the routing theorem proved on the abstract machine transfers: what a call of the finer machine is handed is,
+    kind and content, what the peer answered to THAT call (here derived from `C01_routing_content` of Mux through the
+    refinement, not from MuxOwn's own invariant) -/
+theorem C01_own_routing_transferred (cap : Nat) (as : List MuxOwn.Act) (st : MuxOwn.St)
+    (h : MuxOwn.run .code (MuxOwn.init cap) as = some st) (d : Nat) (f : MuxOwn.Frame)
+    (hd : st.pc d = .done (.resp f)) : (st.sent d).map (fun g => (g.kind, g.tag)) = some (f.kind, f.tag) := by
+  obtain ⟨m, hm, r, _⟩ := C01_own_refines_mux cap as st h
+  have := C01_routing_content cap _ m hm d d f.kind f.tag (r.pc_resp d f hd)
+  rw [← r.sent d]; exact this
+
+/-- non-vacuity: a history with a registration, a late Write return, a cancelled call, a reuse of a freed id and an
+    early exit; its Mux counterpart and the common observation stream -/
+def refineHistory : List MuxOwn.Act :=
+  [.reserve 1 1 .user, .register 1, .write 1, .answer 1 0 11, .writeReturned 1, .deliver 1, .release 1,
+   .reserve 2 1 .user, .register 2, .write 2, .writeReturned 2, .relDone 1, .cancel 2,
+   .reserve 3 64 .user, .register 3, .writeCancelled 3, .release 3, .relDone 3, .answer 1 0 22, .deliver 1, .stray 99]
+
+example : MuxOwn.trAll (MuxOwn.init 128) refineHistory =
+    [.acquire 1 1, .wrote 1, .answer 1 0 11, .deliver 1, .acquire 2 1, .wrote 2, .cancel 2, .acquire 3 64,
+     .writeCancelled 3, .answer 1 0 22, .deliver 1, .stray 99] := by rfl
+
+example : MuxOwn.otrace .code (MuxOwn.init 128) refineHistory =
+    [.req 1 1, .resp 1 1 0 11, .got 1 0 11, .req 1 2, .resp 1 2 0 22, .stray 99] := by decide
+
+/-! ## Call objects as entities; a pool of them (`Model/MuxPool.lean`, round 8)
+
+closeWithError walks a snapshot of POINTERS to call objects and sends the connection's error to whoever reads the channel
+of each. The code that exists allocates a fresh call object per request (`Policy.never`). -/
+
+/-- for the code that exists AND for a pool that takes an object back only when no `c.calls` map and no closeWithError
+    snapshot refers to it: over all connections, all interleavings of requests starting, being answered, leaving early,
+    connections closing and closeWithError getting round to each object - the error of connection `k` is only ever
+    handed to a request of connection `k` -/
+theorem C01_recycling_safe (p : MuxPool.Policy) (hp : p ≠ .onRelease) (as : List MuxPool.Act) (st : MuxPool.St)
+    (h : MuxPool.run p MuxPool.init as = some st) (r k : Nat) (hd : st.pc r = .done (.connErr k)) : st.conn r = k :=
+  (MuxPool.inv_run p hp as _ st MuxPool.inv_init h).err_ok r k hd
+
+/-- the invariant that makes it safe: an object that a `c.calls` map or a snapshot refers to is not in the pool, and
+    whoever reads its channel is a request of that very connection -/
+theorem C01_referenced_object_not_pooled (p : MuxPool.Policy) (hp : p ≠ .onRelease) (as : List MuxPool.Act) (st : MuxPool.St)
+    (h : MuxPool.run p MuxPool.init as = some st) (o k : Nat) (hr : st.inCalls o = some k ∨ st.inWalk o = some k) :
+    st.pool o = false ∧ ∀ r, st.user o = some r → st.conn r = k := by
+  have inv := MuxPool.inv_run p hp as _ st MuxPool.inv_init h
+  rcases hr with hr | hr
+  · exact ⟨(inv.calls_ok o k hr).1, (inv.calls_ok o k hr).2.2.2⟩
+  · exact ⟨(inv.walk_ok o k hr).1, (inv.walk_ok o k hr).2.2⟩
+
+/-- Counterexample for the pool that takes an object back whenever its stream is released (seeded change C01-7):
+    connection 1 closes while requests 1 and 2 are inside exec; request 2 leaves through the nothing-written exit and puts
+    object 1 back although closeWithError's snapshot still holds it; request 3 on CONNECTION 2 is given object 1; when
+    closeWithError(1) gets to object 1, request 3 is handed the error of connection 1.
+    Replay: `ds 2 0 !q5 q5 z c2 @2 q5 w1 …`. -/
+theorem C01_cex_recycle_on_release :
+    ∃ st, MuxPool.run .onRelease MuxPool.init
+        [.start 1 1 0, .start 2 1 1, .close 1, .leave 2, .start 3 2 1, .visit 1 1] = some st ∧
+      st.pc 3 = .done (.connErr 1) ∧ st.conn 3 = 2 := by
+  refine ⟨_, rfl, ?_, ?_⟩ <;> decide
+
+/-- non-vacuity: the safe pool does recycle (object 0 serves request 1 on connection 1, then request 2 on connection
+    2), refuses the put-back of the history above (request 3 cannot be given object 1), and the error of connection 1
+    reaches request 1 -/
+example : ∃ st, MuxPool.run .whenUnreferenced MuxPool.init
+    [.start 1 1 0, .respond 1, .start 2 2 0, .respond 2] = some st ∧ st.pc 2 = .done .own ∧ st.pool 0 = true := by
+  refine ⟨_, rfl, ?_, ?_⟩ <;> decide
+
+example : (MuxPool.run .whenUnreferenced MuxPool.init
+    [.start 1 1 0, .start 2 1 1, .close 1, .leave 2, .start 3 2 1]).isNone = true := by decide
+
+example : ∃ st, MuxPool.run .never MuxPool.init
+    [.start 1 1 0, .start 2 1 1, .close 1, .leave 2, .start 3 2 2, .visit 1 1, .visit 1 0, .respond 3] = some st ∧
+    st.pc 1 = .done (.connErr 1) ∧ st.pc 2 = .done .ctx ∧ st.pc 3 = .done .own := by
   refine ⟨_, rfl, ?_, ?_, ?_⟩ <;> decide
 
 end C01
